@@ -48,3 +48,31 @@ def run_fc(ctx, files, cwd=None, timeout=300, env=None, foi=True, fcbin=None):
 def gen_name(fo_path):
     d, b = os.path.split(fo_path)
     return os.path.join(d, "gen_" + b[:-3] + ".go")
+
+
+def run_fc_many(ctx, wd, names, timeout_each=20, per_invocation_args=None, fcbin=None, env=None):
+    """Run `fc pkg_all.foi <name>.fo` for every name in wd, one process per name, 16 at a time (xargs).
+    Leaves <name>.out / <name>.err / <name>.rc next to the sources. Returns dict name -> (rc, stdout, stderr)."""
+    fc = fcbin or ctx.build("fc")
+    foi = os.path.join(ctx.repo, "pkg", "pkg_all.foi")
+    script = os.path.join(wd, "_run1.sh")
+    with open(script, "w") as f:
+        f.write("#!/bin/sh\ncd %s\ntimeout %d %s %s \"$1.fo\" > \"$1.out\" 2> \"$1.err\"\necho $? > \"$1.rc\"\n" % (wd, timeout_each, fc, foi))
+    os.chmod(script, 0o755)
+    lst = os.path.join(wd, "_names.txt")
+    with open(lst, "w") as f:
+        f.write("\n".join(names) + "\n")
+    e = dict(core.GOENV)
+    if env:
+        e.update(env)
+    rc, so, se = core.sh(["sh", "-c", "xargs -P %d -n 1 %s < %s" % (core.NCPU, script, lst)], cwd=wd, timeout=7200, env=e)
+    res = {}
+    for n in names:
+        try:
+            r = int(open(os.path.join(wd, n + ".rc")).read().strip())
+            o = open(os.path.join(wd, n + ".out"), errors="replace").read()
+            er = open(os.path.join(wd, n + ".err"), errors="replace").read()
+        except (OSError, ValueError):
+            raise Infra("fc batch runner produced no result for " + n)
+        res[n] = (r, o, er)
+    return res
